@@ -38,7 +38,7 @@ type Allot interface{ isAllot() }
 type (
 	AllotLit       struct{ Lit Expr } // *Ratio or *Percent
 	AllotVar       struct{ V *Var }
-	AllotRemaining struct{}
+	AllotRemaining struct{ _ byte } // non-zero size: nodes are identified by address
 )
 
 func (*AllotLit) isAllot()       {}
